@@ -224,14 +224,19 @@ def observe_unary(fx, np, props, op, tx, cxs, xmodes, ois='same'):
         return dict(base, k='error', err=type(ex).__name__, msg=str(ex)[:200], cx=[wint(c) for c in cxs[:3]])
 
 
-def observe_div(fx, np, props, tx, ty, cxs, cys, method='raw', rnd='trunc', route='operator', scalar=False):
+def observe_div(fx, np, props, tx, ty, cxs, cys, method='raw', rnd='trunc', route='operator', scalar=False, hist=None):
     """x/y, x//y, x%y on the same operands (divisor codes non-zero)"""
     base = {'k': 'div', 'p': list(props), 'x': dict(zip('swf', (bool(tx[0]), tx[1], tx[2]))),
             'y': dict(zip('swf', (bool(ty[0]), ty[1], ty[2]))), 'method': method, 'r': rnd, 'route': route,
             'agg': not scalar, 'carrier': 'scalar' if scalar else 'array'}
     try:
-        X = mk(fx, np, tx, cxs[0] if scalar else cxs, None, rounding=rnd)
-        Y = mk(fx, np, ty, cys[0] if scalar else cys, None, rounding=rnd)
+        if hist:
+            X = mk_hist(fx, np, tx, cxs[0] if scalar else cxs, None, mode=hist, rounding=rnd)
+            Y = mk_hist(fx, np, ty, cys[0] if scalar else cys, None, mode=hist, rounding=rnd)
+            base['route'] = route + '/hist-' + hist
+        else:
+            X = mk(fx, np, tx, cxs[0] if scalar else cxs, None, rounding=rnd)
+            Y = mk(fx, np, ty, cys[0] if scalar else cys, None, rounding=rnd)
         X.config.op_method = method
         res = {}
         for name, op in (('t', 'truediv'), ('q', 'floordiv'), ('m', 'mod')):
